@@ -73,7 +73,14 @@ def generic_loop(mod, ctx):
             ctx.cnt('stopped_by_time_cap')
             break
         cs = case_seed(ctx.seed, ctx.shard, i)
-        mod.run_case(cs, ctx)
+        try:
+            mod.run_case(cs, ctx)
+        except Exception as e:
+            # a monitor that cannot cope with what the code did must not hide the
+            # findings already recorded; many such errors make the run inconclusive
+            ctx.cnt('harness_errors')
+            if len(ctx.notes) < 3:
+                ctx.notes.append({'harness_error': ''.join(traceback.format_exception(type(e), e, e.__traceback__))[-1500:], 'cs': cs})
         ctx.cnt('cases')
 
 
